@@ -22,7 +22,7 @@ transaction with pending writes appends exactly that transaction's entries, all 
 version `v = nextTs`, which is greater than every version in the store and every earlier commit
 version; any other answer (`conflict`, `toobig`, `blocked`, `discarded`, …) leaves the store
 exactly as it was. -/
-theorem C04_atomic (c : MvccCfg) (fp : Key → Nat) (s : St) (hs : Reach c fp s) (id : Nat) :
+theorem C04_atomic (c : MvccCfg) (hc : c.SeedGood) (fp : Key → Nat) (s : St) (hs : Reach c fp s) (id : Nat) :
     ((step c fp s (.commit id)).2 = .ok →
       ∃ t, Live s id t ∧
         ((t.writes = [] ∧ (step c fp s (.commit id)).1.store = s.store) ∨
@@ -30,7 +30,7 @@ theorem C04_atomic (c : MvccCfg) (fp : Key → Nat) (s : St) (hs : Reach c fp s)
           (step c fp s (.commit id)).1.nextTs = s.nextTs + 1 ∧
           (∀ e ∈ s.store, e.ts < s.nextTs) ∧ (∀ cm ∈ s.log, cm.ts < s.nextTs)))) ∧
     ((step c fp s (.commit id)).2 ≠ .ok → (step c fp s (.commit id)).1.store = s.store) := by
-  have hA := Reach_InvA hs
+  have hA := Reach_InvA hc hs
   simp only [step]
   cases hg : getTxn s id with
   | none => simp
@@ -42,11 +42,11 @@ theorem C04_atomic (c : MvccCfg) (fp : Key → Nat) (s : St) (hs : Reach c fp s)
       by_cases hw : t.writes = []
       · simp only [commitTxn, hd, hw, if_true, if_false, Bool.false_eq_true]
         refine ⟨fun _ => ⟨t, ⟨hg, hd'⟩, Or.inl ⟨hw, by simp⟩⟩, fun h => absurd rfl h⟩
-      · rcases commitTxn_cases c s id t hd' hw with ⟨_, hs1, ho⟩ | ⟨ho, hs1⟩ | ⟨ho, _, hs1⟩
+      · rcases commitTxn_cases c s id t false hd' hw with ⟨_, hs1, ho⟩ | ⟨ho, hs1⟩ | ⟨ho, _, _, hs1⟩
         · rw [ho, hs1]; simp
         · rw [hs1]
           refine ⟨fun h => ?_, fun _ => by simp⟩
-          rcases ho with ho | ho <;> rw [ho] at h <;> cases h
+          rcases ho with ho | ho | ho <;> rw [ho] at h <;> cases h
         · rw [hs1, ho]
           refine ⟨fun _ => ⟨t, ⟨hg, hd'⟩, Or.inr ⟨by simp, by simp, hA.storeLt, hA.logLt⟩⟩, fun h => absurd rfl h⟩
 
@@ -88,12 +88,12 @@ theorem bestOf_entries (w : List (Key × Option Val)) (v : Nat) (st : List Entry
 version `v`: a read at any timestamp `≥ v` (until a later commit) returns the transaction's write
 for every key it wrote; a read at any timestamp `< v` returns what it returned before, for every
 key.  No reader can therefore see part of the transaction. -/
-theorem C04_visible_together (c : MvccCfg) (fp : Key → Nat) (s : St) (hs : Reach c fp s) (id : Nat) (t : Txn)
+theorem C04_visible_together (c : MvccCfg) (hc : c.SeedGood) (fp : Key → Nat) (s : St) (hs : Reach c fp s) (id : Nat) (t : Txn)
     (hl : Live s id t) (hw : t.writes ≠ []) (hok : (step c fp s (.commit id)).2 = .ok) :
     (∀ k x, lookupW t.writes k = some x → ∀ ts, s.nextTs ≤ ts →
         readAt (step c fp s (.commit id)).1.store k ts = x) ∧
     (∀ k ts, ts < s.nextTs → readAt (step c fp s (.commit id)).1.store k ts = readAt s.store k ts) := by
-  obtain ⟨hok1, _⟩ := C04_atomic c fp s hs id
+  obtain ⟨hok1, _⟩ := C04_atomic c hc fp s hs id
   obtain ⟨t', hl', hcase⟩ := hok1 hok
   have htt : t' = t := by
     have h1 := hl'.1; have h2 := hl.1
@@ -113,11 +113,25 @@ theorem C04_visible_together (c : MvccCfg) (fp : Key → Nat) (s : St) (hs : Rea
 reachable state the successful commits (ghost log, newest first) carry strictly decreasing
 versions down the list, all below `nextTs`, and an entry is in the store iff it is a write of
 one of those successful commits at that commit's version. -/
-theorem C04_versions_increasing (c : MvccCfg) (fp : Key → Nat) (s : St) (hs : Reach c fp s) :
+theorem C04_versions_increasing (c : MvccCfg) (hc : c.SeedGood) (fp : Key → Nat) (s : St) (hs : Reach c fp s) :
     s.log.Pairwise (fun newer older => older.ts < newer.ts) ∧
     (∀ cm ∈ s.log, cm.ts < s.nextTs) ∧
     (∀ e, e ∈ s.store ↔ ∃ cm ∈ s.log, e.ts = cm.ts ∧ (e.key, e.val) ∈ cm.writes) :=
-  ⟨(Reach_InvA hs).logSorted, (Reach_InvA hs).logLt, (Reach_InvA hs).storeLog⟩
+  ⟨(Reach_InvA hc hs).logSorted, (Reach_InvA hc hs).logLt, (Reach_InvA hc hs).storeLog⟩
+
+/-- **Versions keep increasing across a reopen.**  `Close` + `Open` keeps the store and the
+successful-commit log, drops every transaction handle, and seeds the new oracle so that the next
+commit version (`nextTs`) is above every version in the store and every earlier commit version
+(reachable states include any number of reopens, so `C04_atomic` and `C04_versions_increasing`
+span them). -/
+theorem C04_reopen (c : MvccCfg) (hc : c.SeedGood) (fp : Key → Nat) (s : St) (hs : Reach c fp s) :
+    (step c fp s .reopen).1.store = s.store ∧ (step c fp s .reopen).1.log = s.log ∧
+    (∀ e ∈ s.store, e.ts < (step c fp s .reopen).1.nextTs) ∧
+    (∀ cm ∈ s.log, cm.ts < (step c fp s .reopen).1.nextTs) ∧
+    (∀ id, getTxn (step c fp s .reopen).1 id = none) := by
+  have hA := InvA_step c hc fp s .reopen (Reach_InvA hc hs)
+  refine ⟨rfl, rfl, hA.storeLt, hA.logLt, ?_⟩
+  intro id; simp [step, reopenDB, getTxn]
 
 theorem ge_nat (a b : Nat) : CmpOp.nat .ge a b = true ↔ b ≤ a := by
   simp [CmpOp.nat, CmpOp.eval]
@@ -175,7 +189,7 @@ theorem C04_commit_limit (c : MvccCfg) (hc : c.SizeGood) (fp : Key → Nat) (s :
 
 -- non-vacuity: a reachable state with two commits, and a refused write
 example : ((run MvccCfg.good (fun k => k.length) (init 64 1000 100)
-    [.begin 1 true, .set 1 [1] (some [7]), .commit 1, .begin 2 true, .set 2 [1] (some [8]), .set 2 [2] none, .commit 2]).log.map (·.ts))
+    [.begin 1 true, .set 1 [1] (some [7]), .commit 1, .reopen, .begin 2 true, .set 2 [1] (some [8]), .set 2 [2] none, .commit 2]).log.map (·.ts))
     = [2, 1] := by decide
 example : (step MvccCfg.good (fun k => k.length) (run MvccCfg.good (fun k => k.length) (init 3 1000 100)
     [.begin 1 true, .set 1 [1] (some [7])]) (.set 1 [2] (some [7]))).2 = .toobig := by decide
